@@ -5,3 +5,4 @@ pub mod breaker_conc;
 pub mod retry;
 pub mod timelimiter;
 pub mod backoff;
+pub mod hedge;
